@@ -30,7 +30,7 @@ META = dict(
     ),
 )
 META["explanation"] += (
-    " Added after the independent seeding rounds 2-3: " 'R4 memo caches are private to their function and keyed by its arguments. R5 bounded_sequence budget guard (shared with C06-R6). R6 (round 4) repetition-count algebra: the node returned by simple_repeat / repeat_exact / at_most / at_least / repeat derives exactly the counts of its contract — count sets are computed symbolically (unions of arithmetic progressions with bounds linear in n, n/K, n%K) from the expression tree of the returned node, under the equalities of the dominating branch conditions.'
+    " Added after the independent seeding rounds 2-3: " 'R4 memo caches are private to their function and keyed by its arguments. R5 bounded_sequence budget guard (shared with C06-R6). R7 (round 4, adopted from C08-R1) min/max Length, Items, Properties are combined by Schema::intersect with max / opt_min (None = unbounded) of the same field of both operands. R6 (round 4) repetition-count algebra: the node returned by simple_repeat / repeat_exact / at_most / at_least / repeat derives exactly the counts of its contract — count sets are computed symbolically (unions of arithmetic progressions with bounds linear in n, n/K, n%K) from the expression tree of the returned node, under the equalities of the dominating branch conditions.'
 )
 
 
@@ -399,6 +399,10 @@ def run(ctx):
         ok = len(el) == 2 and el[0].startswith("call:repeat_exact(") and el[1].startswith("call:zero_or_more(") and L.role(al, al.blocks[ex[0]]["term"]["args"][2]) == "param:3"
     ctx.check(ok, "C09-R2", "at_least:shape", "at_least(elt, n) = join[repeat_exact(elt, n), zero_or_more(elt)]",
               "at_least no longer is repeat_exact(n) followed by zero_or_more", site=al.where())
+
+    # ------------------------------------------------------------------ R7 size bounds survive schema intersection (adopted from C08-R1)
+    # allOf / $ref siblings / enum merge two schemas: the upper size bound is opt_min (None = unbounded), the lower one max
+    ctx.import_clauses("c08", "C08-R1", ["intersect:StringSchema.", "intersect:ArraySchema.", "intersect:ObjectSchema."], "C09-R7")
 
     # ------------------------------------------------------------------ R6 repetition-count algebra (inductive step of the factorisation)
     rep_count_rule(ctx, "C09-R6", g_none)
